@@ -586,9 +586,12 @@ def explain(ctx, sb_like, case, h, clauses):
 
 
 # ------------------------------------------------------------------------------------------------ drift (I-layer predictions)
-def compare_predictions(ctx, case, h, exp, drift=None):
-    """exp = the TLC case record.  Differences are model drift, never violations."""
+def compare_predictions(ctx, case, h, exp, exp_found=None, drift=None, variant=None):
+    """exp = the TLC case record of the repaired I-layer, exp_found = of the I-layer with the three switches off (code as found).
+    The lists may follow either; anything else is model drift -- never a violation."""
     drift = drift or ctx.drift
+    exp_found = exp_found or exp
+    variant = variant if variant is not None else {}
     o = case["o"]
     tag = "%s %s ext=%s stem=%s lookup=%s" % (o["lang"], opt_tag(o), o["ext"], o["stem"], o["lookup"])
     raws = [r for r in h.raw if r["m"] != "probe"]
@@ -610,9 +613,12 @@ def compare_predictions(ctx, case, h, exp, drift=None):
         drift("I-layer: files created for %s: predicted %s, observed differs by %s" % (tag, sorted(exp["created"]), sorted(created ^ want)[:4]))
     los = [r for r in raws if r["m"] == "lo"]
     if los and los[0]["rc"] == 0:
-        want = set().union(*[conc[k] for k in exp["lo"]]) if exp["lo"] else set()
-        if set(los[0]["listed"]) != want and set(los[0]["listed"]) == created:
-            drift("I-layer: --list-outputs for %s: predicted %s, observed differs by %s" % (tag, sorted(exp["lo"]), sorted(set(los[0]["listed"]) ^ want)[:4]))
+        wants = [set().union(*[conc[k] for k in e["lo"]]) if e["lo"] else set() for e in (exp, exp_found)]
+        if set(los[0]["listed"]) not in wants:
+            drift("I-layer: --list-outputs for %s: predicted %s (as found: %s), observed differs by %s"
+                  % (tag, sorted(exp["lo"]), sorted(exp_found["lo"]), sorted(set(los[0]["listed"]) ^ wants[0])[:4]))
+        elif wants[0] != wants[1]:
+            variant.setdefault("FwdOmitToList", set()).add(set(los[0]["listed"]) == wants[0])
     lis = [r for r in raws if r["m"] == "li"]
     if lis and lis[0]["rc"] == 0:
         got = set(lis[0]["listed"])
@@ -623,11 +629,23 @@ def compare_predictions(ctx, case, h, exp, drift=None):
                "dsdlR": lambda p: p.startswith("in/dsdl/") and p.endswith(".dsdl"),
                "dsdlD": lambda p: p.startswith("in/lookup") and p.endswith(".dsdl") and not p.endswith("Unused.1.0.dsdl")}
         seen = set(k for k, f in cls.items() if any(f(p) for p in got))
-        pred = set(exp["li"])
-        if seen != pred:
-            # what is listed in excess of the prediction is drift only; what the prediction lists and the code does not is drift here
-            # and -- if the file matters -- a violation found by the probes
+        pred, predf = set(exp["li"]), set(exp_found["li"])
+        # per switch: the classes it moves must follow one of the two settings; everything else must be as predicted
+        moved = {"ListDeps": {"dsdlD"}, "ListUserSup": {"supU", "supB"}}
+        fixed = set(cls) - moved["ListDeps"] - moved["ListUserSup"]
+        if seen & fixed != pred & fixed:
             drift("I-layer: --list-inputs for %s: predicted classes %s, observed %s" % (tag, sorted(pred), sorted(seen)))
+        for sw, cl in moved.items():
+            if pred & cl != predf & cl:
+                if seen & cl == pred & cl:
+                    variant.setdefault(sw, set()).add(True)
+                elif seen & cl == predf & cl:
+                    variant.setdefault(sw, set()).add(False)
+                else:
+                    drift("I-layer: --list-inputs for %s: classes %s predicted %s (as found: %s), observed %s"
+                          % (tag, sorted(cl), sorted(pred & cl), sorted(predf & cl), sorted(seen & cl)))
+            elif seen & cl != pred & cl:
+                drift("I-layer: --list-inputs for %s: classes %s predicted %s, observed %s" % (tag, sorted(cl), sorted(pred & cl), sorted(seen & cl)))
     for pr in (r for r in h.raw if r["m"] == "probe"):
         if pr["influences"]:
             c = {"dsdl:root": "dsdlR", "dsdl:lookup": "dsdlD", "template:user": "tplU", "template:builtin": "tplB",
@@ -650,7 +668,7 @@ def plan_for(ctx, exp, idx, tier_quick):
         plan += [["lo"], ["li"], ["dry"]]
     if exp["probe_q"] if tier_quick else exp["probe_t"]:
         plan.append(["probes", {"unlisted_per_class": 3 if tier_quick else 99, "unlikely_per_class": 1 if tier_quick else 3,
-                                "listed": 2 if tier_quick else 3, "rot": idx}])
+                                "listed": 1 if tier_quick else 3, "rot": idx}])
     return plan
 
 
@@ -793,7 +811,7 @@ def judge(ctx, pool, cases, results, exps=None):
                               "the template suffix .j2 -- 'every template' read as 'every *.j2 file' is satisfied [%s]" % (pr["file"], pr["class"], case["o"]["lang"]))
             clauses = [c for c in clauses if c != "list.inputs_cover"]
         for sig, what in explain(ctx, None, case, h, clauses):
-            if ctx.violation(sig, what, pub):
+            if ctx.violation(sig, what, json.loads(json.dumps(pub))):
                 nviol += 1
     return rej
 
@@ -839,6 +857,11 @@ def run(ctx):
 
     # ---- 2. spec -> code: every emitted option combination against the real CLI
     exps = tlc.emit_cases(ctx, "GenListing", ctx.pick("GenListing_emitq", "GenListing_emit"), constants="case emission, linear schedule")
+    found = tlc.emit_cases(ctx, "GenListing", ctx.pick("GenListing_emitq_found", "GenListing_emit_found"),
+                           constants="case emission, switches FwdOmitToList/ListDeps/ListUserSup off (code as found)")
+    found = {json.dumps(e["o"], sort_keys=True): e for e in found}
+    if len(found) != len(exps):
+        raise MachineryFailure("the two emissions enumerate different option combinations")
     if len(exps) < ctx.pick(500, 2000):
         raise MachineryFailure("too few cases emitted: %d" % len(exps))
     if not all(e["accept"] for e in exps):
@@ -852,8 +875,10 @@ def run(ctx):
     results = [None] * len(cases)
     for i, r in zip(order, res_sorted):
         results[i] = r
+    variant = {}
     for case, exp, (rec, h) in zip(cases, exps, results):
-        compare_predictions(ctx, case, h, exp)
+        compare_predictions(ctx, case, h, exp, found[json.dumps(exp["o"], sort_keys=True)], variant=variant)
+    ctx.cov["i_layer_switches_matching_tree"] = {k: ("repaired" if v == {True} else "as found" if v == {False} else "mixed") for k, v in sorted(variant.items())}
     account(ctx, cases, results)
     judge(ctx, pool, cases, results)
     nrej = sum(1 for e in exps if e["rejected"])
@@ -965,7 +990,7 @@ def selftests(ctx, cases, results):
     # (done on the prediction comparison: expected 'created' without its type files must produce a drift note)
     noticed = []
     exp = {"rejected": False, "ok": True, "created": [], "lo": [], "li": [], "infl": []}
-    compare_predictions(ctx, c, h, exp, drift=noticed.append)
+    compare_predictions(ctx, c, h, exp, None, drift=noticed.append)
     ctx.selftest("a perturbed expected outcome (no files created) is noticed by the spec->code comparison", len(noticed) > 0)
 
 
